@@ -140,6 +140,31 @@ impl Words for Replay {
     }
 }
 
+/// Either a scripted PRNG stream or an exact replay of recorded words.
+#[derive(Clone, Debug)]
+pub enum AnyWords {
+    S(Scripted),
+    R(Replay),
+}
+impl Words for AnyWords {
+    #[inline]
+    fn word(&mut self) -> u64 {
+        match self {
+            AnyWords::S(s) => s.word(),
+            AnyWords::R(r) => r.word(),
+        }
+    }
+}
+impl AnyWords {
+    /// stream position (words served so far)
+    pub fn idx(&self) -> u64 {
+        match self {
+            AnyWords::S(s) => s.idx,
+            AnyWords::R(r) => r.idx as u64,
+        }
+    }
+}
+
 /// Typed payload: a `sample()` call exceeded its word budget.
 #[derive(Debug)]
 pub struct WordBudget(pub u64);
